@@ -288,9 +288,19 @@ def rule_a4(ctx):
     if not deleg:
         res.ok({"verdict": "the rewrite returns no lowering of a synthesised expression"})
         return res
+    def ctrl_dep(x, blk):
+        return body.dominates(x, blk) and len({y for y in body.succs(x) if blk == y or body.path(y, [blk], blocked={x})}) < len(body.succs(x))
     for d in deleg:
-        if any(body.dominates(x, d) and len({y for y in body.succs(x) if d == y or body.path(y, [d], blocked={x})}) < len(body.succs(x)) for x in sign_switches):
+        if any(ctrl_dep(x, d) for x in sign_switches):
             res.ok({"site": "line %d" % body.term(d)["sp"][1], "verdict": "returned on one edge of the test of the literal's sign"})
+            continue
+        # or: the lowered expression itself was chosen by the sign (built on one edge of the test)
+        built = set()
+        for (r, p) in body.deep_sources(body.term(d)["args"][0], 6):
+            if r[0] == "agg":
+                built.add(r[1])
+        if any(ctrl_dep(x, blk) for x in sign_switches for blk in built):
+            res.ok({"site": "line %d" % body.term(d)["sp"][1], "verdict": "the lowered expression is assembled on one edge of the test of the literal's sign"})
         else:
             res.bad(Finding("A4", f["id"], "rewritten product ignores the sign of the literal",
                             "this result of the constant-multiplication rewrite is returned whether the literal factor is negative or not (only its magnitude was inspected)", body.term(d)["sp"]))
